@@ -176,10 +176,17 @@ class BaseClientSession(abc.ABC):
         return None
 
     def region_by_handle(self, handle: int) -> Optional[BaseClientRegion]:
+        fallback = None
         for region in self.regions:
-            if region.handle == handle:
+            if region.handle != handle:
+                continue
+            # A dead region may linger under the same handle as the region that replaced it
+            # (region restart, sim moved to another address.) Prefer the one that's alive.
+            if region.is_alive:
                 return region
-        return None
+            if fallback is None:
+                fallback = region
+        return fallback
 
     def __repr__(self):
         return "<%s %s>" % (self.__class__.__name__, self.id)
